@@ -100,6 +100,20 @@ def _eval_sp(item):
                         live[k]["__mutated__"] = 1
                 except Exception:
                     pass
+            # ... and the other job's state point object itself as the argument
+            other2 = p.open_job(copy.deepcopy(sp))
+            job4 = p.open_job(other2.statepoint)
+            for k, v in sp.items():
+                try:
+                    if isinstance(v, list):
+                        other2.statepoint[k].append("changed")
+                    elif isinstance(v, dict):
+                        other2.statepoint[k]["__mutated__"] = 1
+                except Exception:
+                    pass
+            if job4.id != want_id or not canon.typed_eq(canon.plain(job4.statepoint()), sp):
+                bad("handle-aliases-caller-mapping", f"state-point-object spelling: after the other job's state point changed the "
+                    f"handle reports id {job4.id}, state point {job4.statepoint()!r}", sp, repr(job4.statepoint()), spelling="statepoint-object")
             if job3.id != want_id or not canon.typed_eq(canon.plain(job3.statepoint()), sp):
                 bad("handle-aliases-caller-mapping", f"synced-collection spelling: after the other job's state point changed the "
                     f"handle reports id {job3.id}, state point {job3.statepoint()!r}", sp, repr(job3.statepoint()), spelling="synced")
